@@ -27,6 +27,8 @@ func runC23(w *World, r *Report) {
 	r.Rule("R-C23-3", "edge cut: token creation in each grant handler is unreachable once {consume found, verifyPKCE nil} edges are removed", 3)
 	r.Rule("R-C23-4", "edge cut: verifyPKCE's nil returns are unreachable once {challenge empty, computed == challenge} edges are removed", 1)
 
+	c23DeleteAnswersForItsKey(w, r)
+
 	ap := w.pkg("internal/server/oauth/authserver")
 	cp := w.pkg("internal/caches")
 
